@@ -215,7 +215,7 @@ var (
 	ErrInvalidTimeout = errors.New("timeout cannot be zero or negative")
 
 	// ErrInvalidHELO is returned when the HELO/EHLO value is invalid due to being empty.
-	ErrInvalidHELO = errors.New("invalid HELO/EHLO value - must not be empty")
+	ErrInvalidHELO = errors.New("invalid HELO/EHLO value - must not be empty or contain white space")
 
 	// ErrInvalidTLSConfig is returned when the provided TLS configuration is invalid or nil.
 	ErrInvalidTLSConfig = errors.New("invalid TLS config")
@@ -431,6 +431,13 @@ func WithHELO(helo string) Option {
 	return func(c *Client) error {
 		if helo == "" {
 			return ErrInvalidHELO
+		}
+		// The HELO/EHLO argument is a single domain name or address literal. White space or
+		// control characters would add further arguments to the command (or break the line).
+		for i := 0; i < len(helo); i++ {
+			if helo[i] <= ' ' || helo[i] == 0x7f {
+				return ErrInvalidHELO
+			}
 		}
 		c.helo = helo
 		return nil
